@@ -80,7 +80,7 @@ public:
     MetricAttributes result;
     attributes.ForEachKeyValue(
         [&](nostd::string_view key, opentelemetry::common::AttributeValue value) noexcept {
-          if (allowed_attribute_keys_.find(key.data()) != allowed_attribute_keys_.end())
+          if (isPresent(key))
           {
             result.SetAttribute(key, value);
             return true;
@@ -94,7 +94,9 @@ public:
 
   bool isPresent(nostd::string_view key) const noexcept override
   {
-    return (allowed_attribute_keys_.find(key.data()) != allowed_attribute_keys_.end());
+    // The key is a view: it is neither NUL-terminated nor free of embedded NUL characters.
+    return (allowed_attribute_keys_.find(std::string(key.data(), key.size())) !=
+            allowed_attribute_keys_.end());
   }
 
 private:
